@@ -27,7 +27,7 @@ macro "sn_norm" : tactic =>
 
 theorem loga2_eq (loga1 m1 m2 nswitch : ℝ) :
     sn_loga2 loga1 m1 m2 nswitch = m2 / m1 * loga1 + (1 - m2 / m1) * Real.logb 10 nswitch := by
-  simp only [sn_loga2, log10_real, rpow_real]; sn_norm
+  simp only [sn_loga2, log10_real]; sn_norm
 
 theorem sswitch_eq (loga1 m1 nswitch : ℝ) :
     sn_sswitch loga1 m1 nswitch = (10 : ℝ) ^ ((loga1 - Real.logb 10 nswitch) / m1) := by
@@ -66,6 +66,7 @@ theorem mw_single_eq (a1 h m1 q td v0 : ℝ) :
   simp only [sn_mw_single, gamma_real, rpow_real]; sn_norm
 
 theorem gh_eq (m r uts : ℝ) : gh_corrected m r uts = r * (uts / (uts - m)) := by
-  simp only [gh_corrected]; first | done | ring_nf
+  simp only [gh_corrected]
+  all_goals sn_norm
 
 end Qats.SN
